@@ -354,6 +354,25 @@ def c18_numpy_reward_signal():
     return a == b, f"signal 1.0 -> parts {a}; signal numpy.float64(1.0) -> parts {b}"
 
 
+def c18_zero_dim_tensor_reward_signal():
+    """C08/C18: a scalar reward given as a 0-d tensor scales the update like the same python float."""
+    def run(sig):
+        conn = neural.LinearDense((1,), (1,), 1.0, synapse=neural.DeltaCurrent.partialconstructor(1.0))
+        neu = neural.LIF((1,), 1.0, rest_v=-60.0, reset_v=-65.0, thresh_v=-50.0, refrac_t=1.0, time_constant=20.0)
+        lay = neural.Serial(conn, neu)
+        conn.updater = conn.defaultupdater()
+        tr = learn.MSTDP(1.0, -0.5, 20.0, 15.0)
+        tr.register_cell("c", lay.cell)
+        for _ in range(3):
+            lay.neuron.voltage = torch.full_like(lay.neuron.voltage, -40.0)
+            lay(torch.ones(1, 1).bool())
+        tr(sig)
+        a = conn.updater.weight
+        return (None if a.pos is None else float(a.pos.sum()), None if a.neg is None else float(a.neg.sum()))
+    a, b = run(1.0), run(torch.tensor(1.0))
+    return a == b, f"signal 1.0 -> parts {a}; signal torch.tensor(1.0) (0-d) -> parts {b}"
+
+
 def c12_classifier_fresh_buffers():
     """C12: a step-0 checkpoint of a classifier restored into a fresh classifier leaves it unchanged."""
     c = learn.MaxRateClassifier((4,), 3)
